@@ -7,6 +7,7 @@ package harness
 import (
 	"fmt"
 	"math/big"
+	"os"
 	"sort"
 	"strings"
 	"testing"
@@ -19,6 +20,9 @@ import (
 	evmtypes "github.com/palomachain/paloma/v2/x/evm/types"
 	valsettypes "github.com/palomachain/paloma/v2/x/valset/types"
 )
+
+// q06Thorough: the thorough tier affords longer directed histories.
+func q06Thorough() bool { return os.Getenv("VERIF_TIER_RUN") == "thorough" }
 
 // q06PlainEnv: every validator in the snapshot with its own account, fee 1.1 and full metrics.
 func q06PlainEnv(fx *q06Fix) q06Env {
@@ -150,6 +154,75 @@ func q06Directed(t *testing.T, r *Rec, fx *q06Fix) {
 		c.opBatchGas(n, 21000) // refused: already set
 		c.track()
 	})
+	// "the key its validator had registered FOR THAT CHAIN": validators hold different keys on sibling
+	// chains of the same chain type.  Claiming the sibling chain's address with a (perfectly valid)
+	// signature by the sibling chain's key must be refused; so must the replay of another validator's
+	// signature by somebody who registered that validator's account on a sibling chain.
+	fx.directed(r, "sibling_chain_key", func(c *q06Case) {
+		e1, e2 := fx.n+1, fx.n+2
+		c.opReg(0, []q06Acct{{chain: 1, addr: 4 * e1, raw: 4 * e1}, {chain: 0, addr: 4, raw: 4}}) // sibling account listed first
+		c.opReg(1, []q06Acct{{chain: 0, addr: 8, raw: 8}, {chain: 2, addr: 4 * e2, raw: 4 * e2}})
+		c.opReg(2, []q06Acct{{chain: 1, addr: 4 * e2, raw: 4 * e2}})                      // no account on the queue's chain any more
+		c.opReg(3, []q06Acct{{chain: 0, addr: 16, raw: 16}, {chain: 1, addr: 4, raw: 4}}) // validator 0's account, on another chain
+		for _, kind := range []string{"s", "v"} {
+			id := c.opPut(kind, 1, fx.valID[4], 20, true)
+			c.track()
+			for _, st := range []struct{ val, addr, by int }{
+				{0, 4 * e1, e1}, // sibling address, sibling key
+				{0, 4 * e1, 1},  // sibling address, proper key
+				{0, 4, e1},      // proper address, sibling key
+				{1, 4 * e2, e2}, {2, 4 * e2, e2}, {2, 12, 3},
+				{3, 4, 1}, // validator 0 has not signed yet: its signature replayed under validator 3's sibling registration
+				{0, 4, 1}, {1, 8, 2}, {3, 16, 4},
+				{3, 4, 1}, // and once more now that validator 0's signature is stored
+			} {
+				c.opSign(id, st.val, st.addr, st.by, "c")
+				c.track()
+			}
+		}
+		n := c.opBatchPut(4 * 3)
+		c.opBatchConfirm(n, 0, 4*e1, e1, "c")
+		c.opBatchConfirm(n, 2, 4*e2, e2, "c")
+		c.opBatchConfirm(n, 3, 4, 1, "c")
+		c.opBatchConfirm(n, 0, 4, 1, "c")
+		c.opBatchConfirm(n, 1, 8, 2, "c")
+		c.track()
+	})
+	// every byte form of an otherwise correct signature, before and after the election; what is stored
+	// must verify AS STORED (strict recover over the stored bytes), so every form is refused or is one
+	// that does
+	fx.directed(r, "signature_byte_forms", func(c *q06Case) {
+		for k, kind := range []string{"s", "o", "u", "v"} {
+			id := c.opPut(kind, 1, fx.valID[0], 4, true)
+			c.track()
+			for i, w := range q06Wires {
+				vi := (i + k) % fx.n
+				c.opSignW(id, vi, 4*(vi+1), vi+1, "c", w)
+				c.track()
+			}
+			for i := 0; i < fx.n; i++ {
+				c.opEst(id, i, 40000)
+			}
+			c.opEndBlock()
+			c.track()
+			for i, w := range q06Wires {
+				vi := (i + k + 3) % fx.n
+				c.opSignW(id, vi, 4*(vi+1), vi+1, "c", w)
+				c.track()
+			}
+		}
+		n := c.opBatchPut(4 * 2)
+		for i, w := range q06Wires {
+			c.opBatchConfirmW(n, i%fx.n, 4*(i%fx.n+1), i%fx.n+1, "c", w)
+			c.track()
+		}
+		c.opBatchGas(n, 21000)
+		for i, w := range q06Wires {
+			vi := (i + 2) % fx.n
+			c.opBatchConfirmW(n, vi, 4*(vi+1), vi+1, "c", w)
+			c.track()
+		}
+	})
 	// Sensitivity of the monitors on REAL code: ReassignOrphanedMessages (no caller on any block
 	// path, see C06.md) keeps signatures while it changes the relayer address that is part of the
 	// signing bytes.  The resulting hits are counted as a statistic, not as findings.
@@ -217,6 +290,56 @@ func q14Directed(t *testing.T, r *Rec, fx *q06Fix) {
 		c.opRemove(v)
 		c.opRelay()
 		_, _ = a, b
+	})
+	// a validator-set update DEEP in the queue: behind a backlog longer than any page of any query (messages
+	// waiting for other relayers, for their estimate, or ready for a busy relayer).  Whatever its position, it
+	// holds back every younger message, and the relay answers are cut only AFTER filtering.
+	fx.directed(r, "valset_behind_backlog", func(c *q06Case) {
+		back := 1001 + r.Rng.Intn(150)
+		if q06Thorough() {
+			back = 2100 + r.Rng.Intn(500)
+		}
+		ready := back * (3 + r.Rng.Intn(6)) / 10 // ready for validator 2
+		if r.Rng.Intn(3) == 0 {                  // more ready messages than one answer holds
+			ready = 1000 + r.Rng.Intn(30)
+			back = ready + 50 + r.Rng.Intn(100)
+		}
+		c.opPutN(ready, "o", 0, fx.valID[2], 12, false)
+		c.opPutN(back-ready-1, "s", 0, fx.valID[3], 16, true) // waiting for an estimate
+		c.opPut("u", 1, fx.valID[0], 4, false)
+		v := c.opPut("v", 0, fx.valID[1], 8, false) // position back+1
+		y0 := c.opPut("s", 2, fx.valID[0], 4, false)
+		c.opPut("o", 0, fx.valID[2], 12, false)
+		c.opPut("v", 0, fx.valID[1], 8, false) // a second, younger update
+		c.opPut("u", 3, fx.valID[4], 20, false)
+		c.track()
+		c.opRelay()           // validator 0: only the old upload; validator 1: the first update; 2: the ready backlog; 4: nothing
+		c.opFlag("pub", v, 1) // delivered, not yet attested: still blocks
+		c.opRelay()
+		c.opRemove(v) // now the second update is the barrier
+		c.opRelay()
+		_ = y0
+		c.track()
+	})
+	// the same with a short queue and the update at every position
+	fx.directed(r, "valset_at_every_position", func(c *q06Case) {
+		for pos := 0; pos < 4; pos++ {
+			var v uint64
+			for k := 0; k < 5; k++ {
+				if k == pos {
+					v = c.opPut("v", 0, fx.valID[1], 8, false)
+				}
+				c.opPut([]string{"s", "o", "u"}[k%3], 1+k%3, fx.valID[k%2], 4*(k%2+1), false)
+			}
+			c.opRelay()
+			c.opRemove(v)
+			c.opRelay()
+			for _, id := range append([]uint64(nil), c.ids...) {
+				if c.msg(id) != nil {
+					c.opRemove(id)
+				}
+			}
+		}
 	})
 	// REGRESSION GUARD for be3dcb4f (was a finding): the per-sender filter only looked at SubmitLogicCall;
 	// UploadUserSmartContract messages carry the same fee-paying sender address and were all offered at
@@ -594,10 +717,14 @@ func TestC13Prune(t *testing.T) {
 					t.Fatal(err)
 				}
 			}
-			// evidence: every supplier its own proof (no consensus possible) or a few shared ones
+			// evidence HISTORY: suppliers in any order, every supplier its own proof (no consensus possible) or
+			// a few shared ones; then, often, some of them submit again (retry with the same proof, or another
+			// proof) — the first, a middle or the last supplier, once or several times, in between the others
 			distinct := r.Rng.Intn(3) != 0
 			p := []int{0, 1, 2, 3, 5, 8}[r.Rng.Intn(6)]
-			for vi := 0; vi < fx.n; vi++ {
+			type q13Sub struct{ vi, h int }
+			var plan []q13Sub
+			for _, vi := range r.Rng.Perm(fx.n) {
 				if r.Rng.Intn(10) >= p {
 					continue
 				}
@@ -605,11 +732,33 @@ func TestC13Prune(t *testing.T) {
 				if !distinct {
 					h = 1 + r.Rng.Intn(2)
 				}
-				v := fx.fa.Vals[vi]
-				any, _ := codectypes.NewAnyWithValue(&evmtypes.SmartContractExecutionErrorProof{ErrorMessage: fmt.Sprintf("h%d", h)})
+				plan = append(plan, q13Sub{vi, h})
+			}
+			if len(plan) > 0 && r.Rng.Intn(5) < 3 {
+				for k := 1 + r.Rng.Intn(3); k > 0; k-- {
+					again := plan[r.Rng.Intn(len(plan))]
+					switch r.Rng.Intn(3) {
+					case 0:
+						again = plan[0] // the earliest supplier
+					case 1:
+						again.h = 200 + again.vi + 50*r.Rng.Intn(2) // an updated proof
+					}
+					at := len(plan) // mostly after everybody else
+					if r.Rng.Intn(3) == 0 {
+						at = 1 + r.Rng.Intn(len(plan))
+					}
+					plan = append(plan[:at], append([]q13Sub{again}, plan[at:]...)...)
+					r.Stat("prune.resubmission")
+				}
+			}
+			var hist [][2]string // accepted submissions, oldest first: (validator id, proof)
+			for _, sb := range plan {
+				v := fx.fa.Vals[sb.vi]
+				any, _ := codectypes.NewAnyWithValue(&evmtypes.SmartContractExecutionErrorProof{ErrorMessage: fmt.Sprintf("h%d", sb.h)})
 				if err := c.route(&consensustypes.MsgAddEvidence{Proof: any, MessageID: id, QueueTypeName: fx.queue, Metadata: FAMeta(v.Addr, v.Addr)}); err != nil {
 					t.Fatal(err)
 				}
+				hist = append(hist, [2]string{fmt.Sprint(fx.valID[sb.vi]), fmt.Sprint(sb.h)})
 			}
 			evs := c.evPairs(id)
 			jailedBefore := map[int]bool{}
@@ -632,18 +781,22 @@ func TestC13Prune(t *testing.T) {
 			for j, x := range jailed {
 				js[j] = uint64(x)
 			}
-			// property, evaluated directly: only snapshot validators without evidence, nobody below 10 %
+			// property, evaluated directly on what the validators DID (the accepted submissions), not on what the
+			// message happens to hold: no supplier is jailed, only snapshot validators are, nobody below 10 %
 			votes := new(big.Int)
 			supplied := map[int]bool{}
-			for _, e := range evs {
+			for _, e := range hist {
 				var vid int
 				fmt.Sscan(e[0], &vid)
+				if supplied[vid] {
+					continue
+				}
 				supplied[vid] = true
 				if s, ok := c.obs.shares[vid]; ok {
 					votes.Add(votes, s)
 				}
 			}
-			input := map[string]string{"total": c.obs.total.String(), "vals": c.snapPairs(), "evidence": q06IntPairs(evs), "delivered": q06B(delivered)}
+			input := map[string]string{"total": c.obs.total.String(), "vals": c.snapPairs(), "submissions": q06IntPairs(hist), "stored_evidence": q06IntPairs(evs), "delivered": q06B(delivered)}
 			for _, j := range jailed {
 				if supplied[j] {
 					r.Hit("prune_spares_attesters", fmt.Sprintf("validator %d supplied evidence and was jailed", j), input)
@@ -662,7 +815,7 @@ func TestC13Prune(t *testing.T) {
 			switch {
 			case !delivered:
 				r.Stat("prune.undelivered")
-			case len(evs) == 0:
+			case len(hist) == 0:
 				r.Stat("prune.noevidence")
 			case len(jailed) == 0:
 				r.Stat("prune.nobody")
@@ -670,8 +823,8 @@ func TestC13Prune(t *testing.T) {
 				r.Stat("prune.jailed")
 			}
 			_ = verr
-			r.Op(fmt.Sprintf("prune %s %s %s %s", q06B(delivered), c.obs.total, c.snapPairs(), q06IntPairs(evs)), u64List(js))
-			r.Case(fmt.Sprintf("prune|%d|%s|%s", i, c.snapPairs(), q06IntPairs(evs)), len(evs) > 0)
+			r.Op(fmt.Sprintf("prune %s %s %s %s", q06B(delivered), c.obs.total, c.snapPairs(), q06IntPairs(hist)), u64List(js))
+			r.Case(fmt.Sprintf("prune|%d|%s|%s", i, c.snapPairs(), q06IntPairs(hist)), len(hist) > 0)
 		})
 	}
 }
